@@ -95,7 +95,29 @@ func (s *Scope) evalInterval(e ast.Expr, depth int, assumptions *[]string) ival 
 			// t.Sub(start-of-year of t in t's own location) >= 0
 			if sel, ok := unparen(x.Fun).(*ast.SelectorExpr); ok && len(x.Args) == 1 {
 				recv := s.resolveIdent(sel.X)
-				d0, _ := unparen(x.Args[0]).(*ast.CallExpr)
+				a0 := unparen(x.Args[0])
+				// the origin may first be bound to a local: origin := time.Date(…); t.Sub(origin)
+				if id, ok := a0.(*ast.Ident); ok {
+					if o := s.Info.ObjectOf(id); o != nil {
+						var def ast.Expr
+						nd := 0
+						s.walk(func(m ast.Node) bool {
+							if as, ok := m.(*ast.AssignStmt); ok && len(as.Lhs) == len(as.Rhs) {
+								for i, l := range as.Lhs {
+									if lid, ok := l.(*ast.Ident); ok && s.Info.ObjectOf(lid) == o {
+										nd++
+										def = as.Rhs[i]
+									}
+								}
+							}
+							return true
+						})
+						if nd == 1 && def != nil {
+							a0 = unparen(def)
+						}
+					}
+				}
+				d0, _ := a0.(*ast.CallExpr)
 				// the start of the year may be built by a one-line helper (return time.Date(…)):
 				// unfold it by substituting the helper's parameters with the call's arguments
 				if d0 != nil && CalleeName(s.Info, d0) != "time.Date" {
